@@ -48,6 +48,7 @@ type ProvCase struct {
 
 var c04Prov *eng.Kind[ProvCase]
 var c04Arith *eng.Kind[ArithCase]
+var c04Far *eng.Kind[ArithCase]
 var c04Chain *eng.Kind[ChainCase]
 var c04Data *eng.Kind[DataNumCase]
 
@@ -61,6 +62,7 @@ func init() {
 		Run:         runC04,
 	})
 	c04Arith = eng.NewKind(c, "arith", judgeArith)
+	c04Far = eng.NewKind(c, "arith-far", judgeArithFar)
 	c04Chain = eng.NewKind(c, "chain", judgeChain)
 	c04Data = eng.NewKind(c, "data", judgeDataNum)
 	c04Prov = eng.NewKind(c, "provenance", judgeProv)
@@ -237,6 +239,51 @@ func judgeArith(c ArithCase) *eng.Fail {
 		return eng.F(key, "%s = %s, exact result (half-even to 34 digits) is %s", expr, got, want)
 	}
 	return checkFloat(expr, nil, want)
+}
+
+// judgeArithFar: the same oracle for operands far outside the decimal128 exponent range (no float64
+// rendering: the plain text of such a number has billions of digits).
+func judgeArithFar(c ArithCase) *eng.Fail {
+	x, y := parseOperand(c.X), parseOperand(c.Y)
+	if (c.Op == "+" || c.Op == "-" || c.Op == "%") && (x.E-y.E > 200 || y.E-x.E > 200) {
+		return eng.F("harness/far-operands", "operands of %s too far apart for the reference", c.Op)
+	}
+	want, ok := refOp(c.Op, x, y)
+	if !ok {
+		return nil
+	}
+	expr := c.X + " " + c.Op + " " + c.Y
+	// also through negation and a comparison with the literal spelling of the expected value
+	o, perr := evalSrc("["+expr+", -("+expr+") < 0, "+expr+" === "+decLiteral(want)+"]", nil)
+	if perr != nil {
+		return eng.F("C04/parse", "%s does not parse: %v", expr, perr)
+	}
+	if o.panicked || o.err != nil {
+		return eng.F("C04/eval", "%s: %v %s", expr, o.err, o.panicMsg)
+	}
+	arr, _ := o.val.([]interface{})
+	if len(arr) != 3 {
+		return eng.F("C04/eval", "%s: %s", expr, show(o.val))
+	}
+	got, ok := decOf(arr[0])
+	outcome(want.String())
+	if !ok || !got.Finite() || !got.Equal(want) {
+		return eng.F("C04/wrong-"+opName(c.Op), "%s = %s, exact result (half-even to 34 digits) is %s", expr, show(arr[0]), want)
+	}
+	pos := !want.IsZero() && !want.Neg
+	if arr[1] != interface{}(pos) || arr[2] != interface{}(true) {
+		return eng.F("C04/wrong-"+opName(c.Op), "[-(%s) < 0, %s === %s] = [%s, %s], expected [%v, true]", expr, expr, decLiteral(want), show(arr[1]), show(arr[2]), pos)
+	}
+	return nil
+}
+
+// decLiteral spells a reference number as a literal (coefficient and exponent, parenthesised when negative).
+func decLiteral(d ref.Dec) string {
+	s := d.C.Text(10) + "e" + strconv.Itoa(d.E)
+	if d.Neg {
+		return "(-" + s + ")"
+	}
+	return s
 }
 
 func opName(op string) string {
@@ -584,6 +631,54 @@ func runC04(w *eng.W) {
 			w.Trace(1)
 			w.Note("leg:data-pairs", 1)
 			c04Data.Do(w, DataNumCase{Kind: "float64", F: a, F2: b, Pair: true})
+		}
+	}
+	// operands far outside the decimal128 exponent range (literals carry any exponent, so results must too):
+	// groups of operands around a base exponent; + - % within a group, * and / also across groups
+	farCoefs := []string{"1", "3", "7", "25", "125", strings.Repeat("9", 34), "1234567890123456789012345678901234", "5000000000000000000000000000000001", "18446744073709551617", "2"}
+	deltas := []int{0, 1, -1, 33}
+	bases := []int{6100, 6144, 6150, 7000, 99999, 123456789, 1000000000000000, -6100, -6143, -6176, -6180, -7000, -99999, -123456789, -1000000000000000}
+	if q {
+		farCoefs = farCoefs[:8]
+		deltas = deltas[:2]
+	}
+	group := func(b int) []string {
+		var g []string
+		for _, c := range farCoefs {
+			for _, d := range deltas {
+				lit := c + "e" + strconv.Itoa(b+d)
+				g = append(g, lit, "(-"+lit+")")
+			}
+		}
+		return g
+	}
+	far := func(x, op, y string) {
+		w.State(1)
+		w.Trans(3)
+		w.Trace(1)
+		w.Note("leg:far-exponents", 1)
+		c := ArithCase{x, op, y}
+		w.Sample("far-exponents", c)
+		c04Far.Do(w, c)
+	}
+	for bi, b := range bases {
+		g := group(b)
+		for _, x := range g {
+			if !w.Take() || w.Expired() {
+				continue
+			}
+			for _, y := range g {
+				for _, op := range []string{"+", "-", "*", "/", "%"} {
+					far(x, op, y)
+				}
+			}
+			// across groups: the partner group with the opposite base, and the next one
+			for _, ob := range []int{-b, bases[(bi+1)%len(bases)]} {
+				for _, y := range group(ob)[:8] {
+					far(x, "*", y)
+					far(x, "/", y)
+				}
+			}
 		}
 	}
 	_ = formula.NewRunner
